@@ -44,11 +44,12 @@ DEF = dict(Mode='"cli"', Emit='FALSE', MaxMain=2, MaxInc=0, MainSel=[1, 25],
            IncSel=[], TgtSel=[1, 2], SampleMod=1, SampleRem=0,
            ListFirstWins='FALSE', NegNoop='FALSE', SpliceLeaks='FALSE',
            NegSticky='FALSE', NoneUnset='FALSE', ValSel=[], ShapeSel=[1],
-           GenSel=[], PreSel=[0])
+           GenSel=[], PreSel=[0], CanonSel=[0], ExecAlways='FALSE',
+           FinalShortCut='FALSE')
 
 CLI_ALL = list(range(1, 46))
 INVS = {'cli': ['FirstWins', 'Accumulates', 'IncludeInPlace',
-                'IncludeRestores'],
+                'IncludeRestores', 'SecondPassOrderFree', 'ExecGuarded'],
         'srv': ['NoUnsafeExpansion']}
 DEFECTS = {1: 'second_pass_restarts', 2: 'expansion_per_file',
            4: 'include_glob_unsorted', 8: 'chained_options_expand_twice'}
@@ -119,6 +120,13 @@ def plan(ctx):
         # combination; alone, after "Tag t1", after "Hostname ra"
         ('gencli', 'cli', dict(GenSel=[1, 2, 3], PreSel=[0, 29, 41],
                                TgtSel=[1, 2, 3, 4], **smp(2 if q else 1))),
+        # position of final / canonical / all / exec among the criteria of a
+        # Match line x host name canonicalisation configured in the file
+        # (yes / always, domains, max dots, fallback) or requested by the
+        # caller: both passes run in the library's own connect()
+        ('genfin', 'cli', dict(GenSel=[6, 7], PreSel=[0],
+                               CanonSel=[0, 1, 2, 3, 4, 5, 6],
+                               TgtSel=[1, 3, 5, 7], **smp(8 if q else 1))),
         ('gensrv', 'srv', dict(GenSel=[4], PreSel=[0, 52],
                                TgtSel=[1, 2, 3, 9, 12])),
         # value classes: the same option twice (every ordered pair of: ordinary
@@ -154,6 +162,11 @@ SENSITIVITY = [
                            NegSticky='TRUE'), 'FirstWins'),
     ('noneunset', 'cli', dict(ValSel=[1, 2, 19], ShapeSel=[1], TgtSel=[1],
                               NoneUnset='TRUE'), 'FirstWins'),
+    ('finalshortcut', 'cli', dict(GenSel=[6], PreSel=[0], TgtSel=[1, 3],
+                                  FinalShortCut='TRUE'),
+     'SecondPassOrderFree'),
+    ('execalways', 'cli', dict(GenSel=[6], PreSel=[0], TgtSel=[1, 3],
+                               ExecAlways='TRUE'), 'ExecGuarded'),
     ('splice', 'cli', dict(MaxMain=3, MaxInc=2, MainSel=[43, 25, 26],
                            IncSel=[2, 25, 5], SpliceLeaks='TRUE'),
      'IncludeRestores'),
@@ -609,6 +622,7 @@ def _main(ctx, cd, root):
     t_tlc = time.time() - ctx.t0
     menu = rep = None
     total = 0
+    timing = []
     for name, mode, consts in runs:
         res = results[name]
         ctx.require_tlc_ok(f'Config {name} {mode} {consts}', res)
@@ -627,21 +641,24 @@ def _main(ctx, cd, root):
                     f'{res.distinct} states')
         # same program, different targets: write the files once
         cases.sort(key=lambda r: (r[1], r[2], r[3]))
+        t_run = time.time()
         for rec in cases:
             rep.dispatch(rec)
+        timing.append(f'{name}:{len(cases)}:{time.time() - t_run:.1f}s')
         total += len(cases)
         res.output = ''
     ctx.traces_validated(total)
 
-    second_opinion(ctx, cd, menu, rep.second, root, 800 if quick else 5000,
+    second_opinion(ctx, cd, menu, rep.second, root, 600 if quick else 5000,
                    'programs')
     second_opinion(ctx, cd, menu, rep.second_val, root,
-                   400 if quick else 3000, 'value-class programs')
+                   300 if quick else 3000, 'value-class programs')
 
     rep.connector.close()
     ctx.notes.append(f'{rep.resolved} cases also resolved through '
                      f'asyncssh.connect() (canonicalisation and second pass '
                      f'by the library)')
+    ctx.notes.append('replay per run (name:cases:seconds): ' + ' '.join(timing))
     ctx.notes.append(f'phases: TLC {t_tlc:.1f}s, replay + second opinion '
                      f'{time.time() - ctx.t0 - t_tlc:.1f}s')
     if rep.defect_hits:
